@@ -1,6 +1,7 @@
 (* C08 — The compaction floor only rises, and range reads below it are refused.
    Property theorems only: each is closed by `exact <lemma>` and followed by Print Assumptions. *)
 From KB Require Import Base.Cases Model.Coder Model.CompactSys Model.C08Cases Proofs.Coder Proofs.CompactFloor Proofs.CompactFloorX.
+From KB Require Model.Etcd Proofs.C08Fronts.
 Local Open Scope N_scope.
 
 (* the floor (decoded <prefix>/compact_key, 0 when absent) never decreases along any history of
@@ -55,8 +56,8 @@ Print Assumptions C08_record_wf.
 
 (* ---------- overlapping compactions (client Compact requests, the leader's compact loop) ----------
    Every Compact call is a thread advanced one engine call at a time: setCompactRecord = Get, then the Commit of a
-   CAS / put-if-absent built against the value read; per range checkCompactRace = Get, then the Commit of an
-   unconditional Put. Labels of any number of threads interleave with each other and with writes and reads. *)
+   CAS / put-if-absent built against the value read; per range checkCompactRace = Get, then the Commit of a CAS /
+   put-if-absent against the value read (re-read on a lost compare, a bounded number of times). Labels of any number of threads interleave with each other and with writes and reads. *)
 
 (* C08_floor_monotone at full strength for this label system: along EVERY interleaving of the engine calls of any
    number of compaction threads with writes and reads, the floor never decreases (every write of the record is a
@@ -101,10 +102,84 @@ Theorem C08_below_refused_concurrent_check : forall s i rev,
 Proof. exact read_check_spec. Qed.
 Print Assumptions C08_below_refused_concurrent_check.
 
+(* C08_refused_after_accept for overlapping compactions, whole histories: once a compaction thread has ended without error at
+   revision h then, after ANY interleaving of engine calls of other threads, writes and reads, every range read whose
+   revision is below h is refused - in one step ... *)
+Theorem C08_refused_after_accept_concurrent : forall s i ph s' h ops op rr,
+  xwf s -> xstep s (CThread i ph) = (s', OCompact h COk) -> c_cur (x_c (xrun s' ops)) < two64 ->
+  read_rev (c_cur (x_c (xrun s' ops))) op = Some rr -> rr < h ->
+  snd (xstep (xrun s' ops) op) = ORead RErr.
+Proof. exact refused_after_accept_x. Qed.
+Print Assumptions C08_refused_after_accept_concurrent.
+
+(* ... or in two, at whichever step the read looks at the record *)
+Theorem C08_refused_after_accept_two_step_read : forall s i ph s' h ops j rev,
+  xwf s -> xstep s (CThread i ph) = (s', OCompact h COk) -> c_cur (x_c (xrun s' ops)) < two64 -> rev < h ->
+  (find_thr j (x_thr (xrun s' ops)) = Some (TReadGet rev) -> snd (xstep (xrun s' ops) (CReadCheck j rev)) = ORead RErr) /\
+  (find_thr j (x_thr (xrun s' ops)) = Some (TReadScan rev) -> snd (xstep (xrun s' ops) (CReadScan j rev)) = ORead RErr).
+Proof. exact refused_after_accept_read. Qed.
+Print Assumptions C08_refused_after_accept_two_step_read.
+
+(* the revision h a compaction thread answers with is the one it was spawned with - the clamp of the request against the
+   committed revision and the retry queue at that moment - and no engine call of the thread changes it *)
+Theorem C08_thread_revision : forall s i r n,
+  find_thr i (x_thr (fst (xstep s (CSpawn i r n)))) = Some (TSetGet (clamp (c_cur (x_c s)) (c_retry (x_c s)) r) n).
+Proof. exact spawn_rev. Qed.
+Print Assumptions C08_thread_revision.
+
+Theorem C08_thread_revision_kept : forall rec t,
+  match snd (tstep rec t) with TGo t' => trev t' = trev t | TEnd _ => True end.
+Proof. exact tstep_trev. Qed.
+Print Assumptions C08_thread_revision_kept.
+
+Theorem C08_thread_answers_its_revision : forall s i ph s' h res,
+  xstep s (CThread i ph) = (s', OCompact h res) -> exists t, find_thr i (x_thr s) = Some t /\ h = trev t.
+Proof. exact thread_end_rev. Qed.
+Print Assumptions C08_thread_answers_its_revision.
+
 (* the executable oracle used on the implementation's observations accepts every model run *)
 Theorem C08_oracle_sound : forall c, c08_valid c -> c08_check c = true -> c08_oracle c = None.
 Proof. exact c08_oracle_sound. Qed.
 Print Assumptions C08_oracle_sound.
+
+(* validity is decided and evaluated: what the shards compute on every generated case, c08_check_v = c08_validb && c08_check
+   (revisions within 64 bits, and the model reproduces the history), puts the case under C08_oracle_sound. A generated case
+   that is not valid counts as a mismatch of the run *)
+Theorem C08_validb_sound : forall c, c08_validb c = true -> c08_valid c.
+Proof. exact c08_validb_spec. Qed.
+Print Assumptions C08_validb_sound.
+
+Theorem C08_oracle_sound_evaluated : forall c, c08_check_v c = true -> c08_oracle c = None.
+Proof. exact c08_oracle_sound_v. Qed.
+Print Assumptions C08_oracle_sound_evaluated.
+
+(* a range read during which the engine fails the point read of the compaction record (label CFaultRead; the driver makes
+   the TiKV adapter's CmdGet of the record fail at the RPC level) is refused whatever the record says - below the floor,
+   at it, above it, with no record at all: an unreadable record is never taken for "nothing compacted yet" *)
+Theorem C08_fault_read_refused : forall s rev, xstep s (CFaultRead rev) = (s, ORead RErr).
+Proof. exact fault_read_refused_x. Qed.
+Print Assumptions C08_fault_read_refused.
+
+(* reads through the etcd front end carry the label of the Backend.List they are: in the model of RPCServer.Range and its
+   backend shim (Model/Etcd.v, shim_range) every request with a non-empty range_end that is neither the partition query nor
+   a count is answered from Backend.List with the request's key, range_end, limit and revision, and with an error exactly
+   when Backend.List answers one - the single-key range [key, key ++ "\x00") included *)
+Theorem C08_etcd_range_is_list : forall st r,
+  Etcd.r_end r <> [] -> Etcd.r_rev r <> Etcd.partition_magic -> Etcd.r_count_only r = false ->
+  Etcd.shim_range st r =
+    match Etcd.b_list st (Etcd.r_key r) (Etcd.r_end r) (Etcd.r_limit r) (Etcd.u64_of_Z (Etcd.r_rev r)) with
+    | Etcd.BLErr => Etcd.RErr
+    | Etcd.BLOk h kvs more => Etcd.ROk (Etcd.i64_of_N h) (map Etcd.shim_kv kvs) (Etcd.lenZ kvs + (if more then 1 else 0))%Z more
+    end.
+Proof. exact C08Fronts.etcd_range_is_list. Qed.
+Print Assumptions C08_etcd_range_is_list.
+
+Theorem C08_etcd_single_key_range_is_list : forall st key limit rev,
+  rev <> Etcd.partition_magic ->
+  (Etcd.shim_range st (Etcd.mkRange key (key ++ [0]) limit rev false false) = Etcd.RErr <->
+   Etcd.b_list st key (key ++ [0]) limit (Etcd.u64_of_Z rev) = Etcd.BLErr).
+Proof. exact C08Fronts.etcd_single_key_range_is_list. Qed.
+Print Assumptions C08_etcd_single_key_range_is_list.
 
 (* non-vacuity *)
 Definition ex_s0 : cstate := mkC 112 0 None.
@@ -177,3 +252,41 @@ Example C08_ex_former_F2_witness :
   let s := xrun (mkX (mkC 116 0 None) []) [CRSpawn 5 112; CReadCheck 5 112; CSpawn 1 116 1; CThread 1 PhSetGet; CThread 1 PhSetCommit] in
   find_thr 5 (x_thr s) = Some (TReadScan 112) /\ floor s = 116 /\ snd (xstep s (CReadScan 5 112)) = ORead RErr.
 Proof. vm_compute. repeat split. Qed.
+
+Example C08_ex_fault_read :
+  snd (xstep (xrun xs0 [CCompact 111 1 true]) (CFaultRead 105)) = ORead RErr /\
+  snd (xstep (xrun xs0 [CCompact 111 1 true]) (CFaultRead 112)) = ORead RErr /\
+  snd (xstep (xrun xs0 [CCompact 111 1 true]) (CList 112 0)) = ORead RData /\
+  snd (xstep xs0 (CFaultRead 105)) = ORead RErr.
+Proof. vm_compute. repeat split. Qed.
+
+Example C08_ex_validb :
+  let c := mkC8 100 [mkS8 (CWrite 12) OWrite 112 None; mkS8 (CCompact 111 1 true) (OCompact 111 COk) 112 (Some (be64 111));
+                     mkS8 (CFaultRead 105) (ORead RErr) 112 (Some (be64 111)); mkS8 (CList 112 0) (ORead RData) 112 (Some (be64 111))] in
+  c08_validb c = true /\ c08_check_v c = true /\ c08_oracle c = None.
+Proof. vm_compute. repeat split. Qed.
+
+(* the hypotheses of C08_etcd_range_is_list on the requests the driver sends: a prefix read, the single-key range *)
+Example C08_ex_etcd_requests :
+  let r1 := Etcd.mkRange [47;114;47] [47;114;48] 0 105 false false in
+  let r2 := Etcd.mkRange [47;114;47;97] ([47;114;47;97] ++ [0]) 1 105 false false in
+  Etcd.r_end r1 <> [] /\ Etcd.r_rev r1 <> Etcd.partition_magic /\ Etcd.r_count_only r1 = false /\
+  Etcd.r_end r2 <> [] /\ Etcd.r_rev r2 <> Etcd.partition_magic /\ Etcd.r_count_only r2 = false.
+Proof. cbv zeta. repeat split; try discriminate; reflexivity. Qed.
+
+(* states with parked threads are well-formed too; an accept in the middle of an interleaving, a refusal at the check step *)
+Example C08_ex_xwf_parked :
+  let ops := [CSpawn 1 103 1; CThread 1 PhSetGet; CRSpawn 5 101; CSpawn 2 111 1; CThread 2 PhSetGet; CThread 2 PhSetCommit] in
+  xwf (xrun xs0 ops) /\
+  xstep (xrun xs0 ops) (CThread 2 PhRaceGet) = (fst (xstep (xrun xs0 ops) (CThread 2 PhRaceGet)), OCompact 111 COk) /\
+  find_thr 5 (x_thr (xrun xs0 ops)) = Some (TReadGet 101) /\
+  snd (xstep (xrun xs0 ops) (CReadCheck 5 101)) = ORead RErr /\
+  snd (xstep (xrun xs0 ops) (CList 105 0)) = ORead RErr.
+Proof.
+  cbv zeta. split; [|vm_compute; repeat split].
+  apply (C08_floor_monotone_concurrent [CSpawn 1 103 1; CThread 1 PhSetGet; CRSpawn 5 101; CSpawn 2 111 1; CThread 2 PhSetGet; CThread 2 PhSetCommit] xs0);
+    [apply C08_ex_xwf|vm_compute; reflexivity].
+Qed.
+Example C08_ex_other_backend :
+  cstep (mkC 112 0 (Some (be64 103))) (CCompact2 107 1) = (mkC 112 0 (Some (be64 107)), OCompact 107 COk).
+Proof. vm_compute. reflexivity. Qed.
